@@ -6,12 +6,12 @@ package core
 
 import (
 	"bytes"
-	"os/exec"
 	"crypto/md5"
 	"encoding/json"
 	"fmt"
 	"hash/fnv"
 	"os"
+	"os/exec"
 	"runtime/debug"
 	"sort"
 	"strings"
@@ -366,6 +366,19 @@ func FreshProcess(name string, args ...string) (string, error) {
 	cmd.Stdout, cmd.Stderr = &out, &errb
 	if err := cmd.Run(); err != nil {
 		return "", fmt.Errorf("%v: %s", err, errb.String())
+	}
+	return out.String(), nil
+}
+
+// FreshProcessEnv is FreshProcess with extra environment variables (appended, so they win) and a working directory.
+func FreshProcessEnv(env []string, dir, name string, args ...string) (string, error) {
+	cmd := exec.Command(os.Args[0], append([]string{"aux", name}, args...)...)
+	cmd.Env = append(os.Environ(), env...)
+	cmd.Dir = dir
+	var out, errb bytes.Buffer
+	cmd.Stdout, cmd.Stderr = &out, &errb
+	if err := cmd.Run(); err != nil {
+		return out.String(), fmt.Errorf("%v: %s", err, errb.String())
 	}
 	return out.String(), nil
 }
